@@ -37,6 +37,11 @@ class SetupCfgWriter(DependencyWriter):
             logger.debug("Unable to add dependencies to setup.cfg file.")
             return None
 
+        if defined_dependencies.strip().startswith("file:"):
+            # `install_requires = file: requirements.txt`: the list lives in another file
+            logger.debug("Unable to add dependencies to setup.cfg file.")
+            return None
+
         # newline="": do not translate line endings, the diff must match the file
         with open(self.path, "r", encoding="utf-8", newline="") as f:
             original_lines = f.readlines()
